@@ -80,6 +80,20 @@ func (n *Property) Inject(metas []*Meta) error {
 		return nil
 	}
 
+	//components that can not be assigned to the field are reported, not set (reflect would panic)
+	targetType := n.Type
+	if targetType.Kind() == reflect.Slice || targetType.Kind() == reflect.Array {
+		targetType = targetType.Elem()
+	}
+	for _, m := range metas {
+		if !m.Value.Type().AssignableTo(targetType) {
+			if isRequired {
+				return errors.Errorf("inject '%s': component '%s' of type %s is not assignable to %s", n, m.Name(), m.Value.Type(), targetType)
+			}
+			return nil
+		}
+	}
+
 	switch n.Type.Kind() {
 	case reflect.Slice, reflect.Array:
 		n.Value.Set(reflect.MakeSlice(n.Type, len(metas), len(metas)))
